@@ -194,4 +194,5 @@ pub(crate) mod __verif {
         assert!(matches!(cr.insns[4], Insn::Goal));
         kani::cover!(true);
     }
+
 }
